@@ -23,7 +23,7 @@
 //!
 //! Second line kind: `stub <names> <table> <query>` — alias chasing of the stub resolver (CachingClient):
 //!   one upstream, table `<name>,<qtype>=<response>`; output `<class> n=<upstream queries>`.
-use std::collections::{BTreeMap, BTreeSet, HashMap};
+use std::collections::{BTreeMap, BTreeSet};
 use std::net::{IpAddr, Ipv4Addr, Ipv6Addr};
 use std::pin::Pin;
 use std::sync::{Arc, Mutex};
